@@ -8,12 +8,21 @@ their neighbours) U Hypothesis-drawn magnitudes up to 2^70 of either sign, writt
   tuple    `t: tuple[T, bool] = comptime((v, True)); x = t[0]`  (also (bool, T) and (T, T))
   list     `xs: frozenarray[T, n] = comptime([.., v, ..]); x = xs[k]`  (optionally via mutable_copy())
   carg     `x = k_T(v)` with `def k_T(k: T @ comptime) -> T: return k`
+  traced   `x = t(..)` with a `@guppy.comptime def t(a: int, b: bool, f: float, z: int) -> int` whose body turns
+           the Python integer v into a Guppy value (returned as is / `z + v` / `v + z` / argument of a Guppy
+           function, alone, inside a tuple or a list / `result("tv", v)`) amid 0-3 *neighbour* statements
+           before and after it that turn other Python constants (bool, int, float - biased to values that are
+           numerically equal to v or to each other, such as True / 1 / 1.0) into Guppy values in the same
+           function.  int only: a Python integer met while tracing always becomes an `int`.
 at T = int and T = nat (int forms also without annotation, where the literal defaults to int).
 
 Oracle (property statement): accepted iff v in [-2^63, 2^63-1] (int) / [0, 2^64-1] (nat).
 Out-of-range cases are compiled alone and must be rejected with a user error.  In-range cases
 are batched (~32 per emulated program); each reports `x`, `x + 0`, `x == <the literal v>` and for
-nat also `x // 2^32`, `x % 2^32`; every observation must equal the Python integer exactly.
+nat also `x // 2^32`, `x % 2^32`; every observation must equal the Python integer exactly.  A traced
+function additionally reports every constant it hands to `result` and the final a, b, f, which must equal
+what CPython computes for the same statements (so the neighbours are known to be valid programs: an
+in-range v must be accepted whatever other constants the function uses).
 """
 import os
 import sys
@@ -26,6 +35,9 @@ M64 = 1 << 64
 I63 = 1 << 63
 RANGE = {"int": (-I63, I63 - 1), "nat": (0, M64 - 1)}
 FORMS = ["lit", "neg", "comptime", "tuple", "list", "carg"]
+TRACED_USES = ["ret", "add", "radd", "call", "tuple", "list", "result"]
+# start values of the parameters of a traced function (handed over by main at run time)
+TR_A, TR_B, TR_F = 5, True, 1.5
 BOUNDARIES = [-I63 - 1, -I63, -1, 0, I63 - 1, I63, M64 - 1, M64]
 
 # Confirmed finding class (see the report of this check): a scalar `nat` handed to `result` is
@@ -47,6 +59,18 @@ def k_int(k: int @ comptime) -> int:
 @guppy
 def k_nat(k: nat @ comptime) -> nat:
     return k
+
+@guppy
+def id_int(k: int) -> int:
+    return k
+
+@guppy
+def fst_ib(t: tuple[int, bool]) -> int:
+    return t[0]
+
+@guppy
+def at1(xs: array[int, 2]) -> int:
+    return xs[1]
 """
 
 
@@ -74,6 +98,56 @@ def py_expr(case):
     return "G{i}"
 
 
+def const_text(kind, c):
+    if kind == "float":
+        return repr(float(c))
+    return repr(bool(c)) if kind == "bool" else str(int(c))
+
+
+def neighbour(nb, state, obs):
+    """One neighbour statement: turns the Python constant c of kind bool|int|float into a Guppy value.
+    -> source line; updates the CPython model `state` = {a, b, f} and appends what it reports to obs."""
+    kind, c, how = nb
+    t = const_text(kind, c)
+    c = {"bool": bool, "int": int, "float": float}[kind](c)
+    if how == "res":
+        obs.append(("u", int(c) if kind == "bool" else c))
+        return f'result("u", {t})'
+    if kind == "bool":
+        state["b"] = {"and": state["b"] & c, "rand": c & state["b"], "or": state["b"] | c, "xor": state["b"] ^ c}[how]
+        return {"and": f"b = b & {t}", "rand": f"b = {t} & b", "or": f"b = b | {t}", "xor": f"b = b ^ {t}"}[how]
+    if kind == "int":
+        state["a"] = state["a"] + c if how == "add" else state["a"] ^ c
+        return {"xor": f"a = a ^ {t}", "rxor": f"a = {t} ^ a", "add": f"a = a + {t}"}[how]
+    state["f"] = state["f"] * c if how == "mul" else state["f"] + c
+    return {"mul": f"f = f * {t}", "add": f"f = f + {t}", "radd": f"f = {t} + f"}[how]
+
+
+def traced_lines(case, i):
+    """-> (module-level lines of the traced function, expected inner observations)"""
+    v = case["v"]
+    state, obs = {"a": TR_A, "b": TR_B, "f": TR_F}, []
+    body = [neighbour(nb, state, obs) for nb in case.get("pre", [])]
+    use = case.get("use", "ret")
+    body.append({"ret": f"r = {v}", "add": f"r = z + {v}", "radd": f"r = {v} + z", "call": f"r = id_int({v})",
+                 "tuple": f"r = fst_ib(({v}, True))", "list": f"r = at1([3, {v}])",
+                 "result": f'result("tv", {v})'}[use])
+    if use == "result":
+        obs.append(("tv", v))
+        body.append(f"r = {v}")
+    body += [neighbour(nb, state, obs) for nb in case.get("post", [])]
+    body += ['result("ua", a)', 'result("ub", b)', 'result("uf", f)', "return r"]
+    obs += [("ua", state["a"]), ("ub", int(state["b"])), ("uf", state["f"])]
+    top = ["", "@guppy.comptime", f"def t{i}(a: int, b: bool, f: float, z: int) -> int:"] + ["    " + ln for ln in body] + [""]
+    return top, obs
+
+
+def collides(case):
+    """does the traced function convert two Python constants that compare equal but differ in type?"""
+    cs = [("int", case["v"])] + [(k, c) for k, c, _ in case.get("pre", []) + case.get("post", [])]
+    return any(k1 != k2 and c1 == c2 for n, (k1, c1) in enumerate(cs) for k2, c2 in cs[n + 1:])
+
+
 def case_lines(case, i):
     """(module-level lines, statements defining x{i}) for one case."""
     v, ty, form = case["v"], case["ty"], case["form"]
@@ -84,6 +158,8 @@ def case_lines(case, i):
     uses_expr = form in ("comptime", "tuple", "list") or (form == "carg" and case.get("arg") == "comptime")
     if uses_expr and case.get("expr", "global") == "global":
         top.append(f"G{i} = {v}")
+    if form == "traced":
+        return traced_lines(case, i)[0], [f"{x} = t{i}(u5, True, 1.5, u0)"]
     if form in ("lit", "neg"):
         return top, [f"{x}{ann} = {lit_text(v)}"]
     if form == "comptime":
@@ -118,7 +194,7 @@ def case_lines(case, i):
 def observe_lines(case, i):
     v, ty = case["v"], case["ty"]
     x = f"x{i}"
-    out = [f'result("c", {i})', f'result("v", {x})']
+    out = [f'result("v", {x})']
     if ty == "int":
         out += [f'result("p", {x} + 0)', f'result("e", {x} == {lit_text(v)})']
     else:
@@ -130,10 +206,12 @@ def observe_lines(case, i):
 def build_program(cases, observe=True):
     from vlib import runner
 
-    top, body = [TOP], ["n0: nat = 0", "n32: nat = 4294967296"]
+    top, body = [TOP], ["n0: nat = 0", "n32: nat = 4294967296", f"u5 = {TR_A}", "u0 = 0"]
     for i, c in enumerate(cases):
         t, lines = case_lines(c, i)
         top.extend(t)
+        if observe:
+            body.append(f'result("c", {i})')  # everything reported from here on belongs to case i
         body.extend(lines)
         if observe:
             body.extend(observe_lines(c, i))
@@ -142,7 +220,9 @@ def build_program(cases, observe=True):
 
 
 def describe(case):
-    _, lines = case_lines(case, 0)
+    top, lines = case_lines(case, 0)
+    if case["form"] == "traced":
+        return "; ".join(ln.strip() for ln in top if ln.strip()) + " || " + "; ".join(lines)
     extra = f"  [G0 = {case['v']}]" if any("G0" in ln for ln in lines) else ""
     return "; ".join(lines) + extra
 
@@ -171,6 +251,16 @@ def compile_only(case):
     return out
 
 
+def rejection(out):
+    """name of the user error the compilation ended with, or None.  Errors met while tracing a comptime function
+    surface as GuppyComptimeError (the user-facing error of that mode), which the runner files under `crash`."""
+    if out.kind == "rejected":
+        return type(out.exc.error).__name__
+    if out.kind == "crash" and type(out.exc).__name__ == "GuppyComptimeError":
+        return "GuppyComptimeError"
+    return None
+
+
 def judge_static(case, out):
     """Accept/reject judgement of one case compiled alone -> None | (bucket, detail)"""
     from vlib import runner
@@ -178,12 +268,17 @@ def judge_static(case, out):
     v, ty = case["v"], case["ty"]
     ok = in_range(v, ty)
     d = describe(case)
+    if rejection(out) == "GuppyComptimeError":
+        if not ok:
+            return None
+        return (f"rejected.in_range.{ty}.{vclass(v, ty)}.traced",
+                f"{d}: v = {v} lies in the range of {ty} but is rejected (GuppyComptimeError)\n{out.message[-500:]}")
     if out.kind == "crash":
         return "crash." + (runner.crash_bucket(out.exc) if out.exc else out.title), f"{d}: compiler crashed\n{out.message[-1500:]}"
     if out.kind == "invalid":
         return f"invalid.{ty}", f"{d}: emitted HUGR does not validate\n{out.message[:1200]}"
     if out.kind == "rejected" and ok:
-        return (f"rejected.in_range.{ty}.{vclass(v, ty)}",
+        return (f"rejected.in_range.{ty}.{vclass(v, ty)}" + (".traced" if case["form"] == "traced" else ""),
                 f"{d}: v = {v} lies in the range of {ty} but is rejected ({out.title})\n{out.message[-700:]}")
     if out.kind == "ok" and not ok:
         return (f"accepted.out_of_range.{ty}.{vclass(v, ty)}",
@@ -193,7 +288,7 @@ def judge_static(case, out):
 
 def expected_obs(case):
     v, ty = case["v"], case["ty"]
-    exp = [("v", v), ("p", v), ("e", 1)]
+    exp = (traced_lines(case, 0)[1] if case["form"] == "traced" else []) + [("v", v), ("p", v), ("e", 1)]
     if ty == "nat":
         exp += [("h", v >> 32), ("l", v & 0xFFFFFFFF)]
     return exp
@@ -218,8 +313,11 @@ def judge_obs(case, obs, use_exclude=True):
                 f"{d}: result(tag, x) reports {signed[0][1]} for the nat value {v} "
                 f"(= v - 2^64; x // 2^32, x % 2^32 and x == v confirm that x holds {v})"), False
     t, o, e = bad[0]
-    what = {"v": "result(x)", "p": "result(x + 0)", "e": "x == <literal v>", "h": "x // 2^32", "l": "x % 2^32"}[t]
-    return (f"value.{ty}.{vclass(v, ty)}",
+    what = {"v": "result(x)", "p": "result(x + 0)", "e": "x == <literal v>", "h": "x // 2^32", "l": "x % 2^32",
+            "tv": "result(\"tv\", v) inside the traced function", "u": "a constant reported by the traced function",
+            "ua": "a at the end of the traced function", "ub": "b at the end of the traced function",
+            "uf": "f at the end of the traced function"}[t]
+    return (f"value.{ty}.{vclass(v, ty)}" + (".traced" if case["form"] == "traced" else ""),
             f"{d}: {what} observed {o}, Python integer gives {e}  (all observations: {obs})"), False
 
 
@@ -292,6 +390,9 @@ def norm_case(case):
     c["v"] = int(c["v"])
     if "split" in c:
         c["split"] = int(c["split"])
+    for k in ("pre", "post"):
+        if k in c:
+            c[k] = [[kind, {"bool": bool, "int": int, "float": float}[kind](val), how] for kind, val, how in c[k]]
     return c
 
 
@@ -340,7 +441,9 @@ def case_strategy():
     def case(draw):
         ty = draw(st.sampled_from(["int", "nat"]))
         v = draw(values[ty])
-        form = draw(st.sampled_from([f for f in FORMS if applicable(v, f)]))
+        form = draw(st.sampled_from([f for f in FORMS if applicable(v, f)] + (["traced"] if ty == "int" else [])))
+        if form == "traced" and draw(st.booleans()):
+            v = draw(st.integers(-2, 3))  # the integers that have equal constants of another Python type nearby
         return fill(draw, v, ty, form)
 
     return case()
@@ -366,6 +469,23 @@ def fill(draw, v, ty, form):
         c["k"] = draw(st.integers(0, c["n"] - 1))
         if draw(st.integers(0, 2)) == 0:
             c["via_array"] = True
+    if form == "traced":
+        c.pop("bare", None)
+        c["use"] = draw(st.sampled_from(TRACED_USES))
+        ints = [0, 1, 2, -1] + ([v, v ^ 1] if in_range(v, "int") else [])
+        floats = [0.0, 1.0, 2.0, -1.0] + ([float(v)] if abs(v) <= (1 << 53) else [])
+
+        def nb():
+            kind = draw(st.sampled_from(["bool", "bool", "int", "float"]))
+            if kind == "bool":
+                return [kind, draw(st.booleans()), draw(st.sampled_from(["and", "rand", "or", "xor", "res"]))]
+            if kind == "int":
+                k = draw(st.sampled_from(ints))
+                return [kind, k, draw(st.sampled_from(["xor", "rxor", "res"] + (["add"] if abs(k) <= 3 else [])))]
+            return [kind, draw(st.sampled_from(floats)), draw(st.sampled_from(["mul", "add", "radd", "res"]))]
+
+        c["pre"] = [nb() for _ in range(draw(st.integers(0, 3)))]
+        c["post"] = [nb() for _ in range(draw(st.integers(0, 2)))]
     return c
 
 
@@ -383,6 +503,9 @@ def core_cases():
                 out.append(c)
                 if ty == "int" and form in ("lit", "neg", "comptime", "list"):
                     out.append(dict(c, bare=True))
+        for n, use in enumerate(TRACED_USES):
+            if (BOUNDARIES.index(v) + n) % 2 == 0:
+                out.append({"v": v, "ty": "int", "form": "traced", "use": use, "pre": [], "post": []})
     return out
 
 
@@ -396,7 +519,10 @@ def worker(ctx):
         v, ty = case["v"], case["ty"]
         return [f"form:{case['form']}", f"type:{ty}", "expect:" + ("accepted" if expect_ok else "rejected"),
                 f"class:{ty}.{vclass(v, ty)}", "magnitude:" + (">=2^62" if abs(v) >= (1 << 62) else "<2^62"),
-                "hint:" + ("bare" if case.get("bare") else "annotated")]
+                "hint:" + ("bare" if case.get("bare") else "annotated")] + (
+            [f"traced.use:{case['use']}", f"traced.neighbours:{len(case['pre'])}+{len(case['post'])}",
+             "traced.equal_constants_of_other_type:" + ("yes" if collides(case) else "no")]
+            if case["form"] == "traced" else [])
 
     def count(case, expect_ok, extra=()):
         ctx.case(case, abs(case["v"]) >= (1 << 62), labels=labels_of(case, expect_ok) + list(extra))
@@ -432,7 +558,7 @@ def worker(ctx):
                 flush()
             return
         out = compile_only(case)
-        count(case, False, ["error:" + (type(out.exc.error).__name__ if out.kind == "rejected" else out.kind)])
+        count(case, False, ["error:" + (rejection(out) or out.kind)])
         viol = judge_static(case, out)
         if viol:
             ctx.violation(viol[0], dict(case, source=build_program([case], observe=False)), viol[1])
